@@ -25,6 +25,7 @@ def parseEntry (s : String) : Entry :=
     else if t.startsWith "kv" then { e with kvNil := bit t "kv" }
     else if t.startsWith "kb" then { e with keyBad := bit t "kb" }
     else if t.startsWith "fn" then { e with fromNeg := bit t "fn" }
+    else if t.startsWith "lh" then { e with lockHeld := bit t "lh" }
     else if t.startsWith "k" then
       { e with keys := if t == "kN" then .nil else if t == "kE" then .empty else if t == "kF" then .firstEmpty else .ok }
     else if t.startsWith "iz" then { e with incZero := bit t "iz" }
